@@ -549,6 +549,14 @@ func (p *Prog) flatten() {
 		}
 		changed = len(still) != n
 	}
+	if "" != os.Getenv("CRS_FLATDEBUG") {
+		var ks []string
+		for g := range still {
+			ks = append(ks, g.String())
+		}
+		sort.Strings(ks)
+		fmt.Fprintf(os.Stderr, "STILL %v\n", ks)
+	}
 	/* Rebuild the function list. */
 	var out []*ssa.Function
 	seen := map[*ssa.Function]bool{}
